@@ -5,6 +5,7 @@ import (
 	"fmt"
 	"math/rand"
 	"strconv"
+	"strings"
 	"sync"
 	"sync/atomic"
 	"testing"
@@ -12,6 +13,10 @@ import (
 
 	"google.golang.org/grpc/codes"
 	"google.golang.org/grpc/status"
+
+	"github.com/prometheus/prometheus/model/labels"
+	"github.com/prometheus/prometheus/storage"
+	"github.com/prometheus/prometheus/tsdb"
 
 	"github.com/thanos-io/thanos/pkg/receive"
 	"github.com/thanos-io/thanos/pkg/store/storepb"
@@ -72,7 +77,9 @@ type fanoutRun struct {
 	outs      []string
 	idx       map[[2]int]int // (node, replica) -> er index
 	rel       []chan struct{}
-	stored    []bool // er index -> peer stored the batch
+	stored    []map[int]bool // er index -> series the replica stored (under the series' own tenant)
+	tenants   []string       // expected tenant per series (index s-1)
+	localIdx  int            // index of the write that goes to the receiver's own storage, or -1
 	arrived   []bool
 	placement string // non-empty: the handler sent something the case did not expect
 }
@@ -92,12 +99,18 @@ func outcomeErr(o string) error {
 
 func (fr *fanoutRun) fn(ctx context.Context, node int, req *storepb.WriteRequest) error {
 	var got []int
+	type st struct {
+		s      int
+		tenant string
+	}
+	var items []st
 	run := ""
 	for _, td := range req.TimeseriesTenantData {
 		for i := range td.Timeseries {
 			run = labelOf(&td.Timeseries[i], "vrun")
 			s, _ := strconv.Atoi(labelOf(&td.Timeseries[i], "vser"))
 			got = append(got, s)
+			items = append(items, st{s, td.Tenant})
 		}
 	}
 	if run != fr.runID {
@@ -113,6 +126,9 @@ func (fr *fanoutRun) fn(ctx context.Context, node int, req *storepb.WriteRequest
 	sortInts(got)
 	if fmt.Sprint(got) != fmt.Sprint(fr.ers[i].series) {
 		fr.placement = fmt.Sprintf("write node=%d replica=%d carries series %v, expected %v", node, req.Replica-1, got, fr.ers[i].series)
+	}
+	if i == fr.localIdx {
+		fr.placement = fmt.Sprintf("write node=%d replica=%d was sent over gRPC although the node is the receiver itself", node, req.Replica-1)
 	}
 	fr.arrived[i] = true
 	ch := fr.rel[i]
@@ -130,11 +146,118 @@ func (fr *fanoutRun) fn(ctx context.Context, node int, req *storepb.WriteRequest
 	err := outcomeErr(fr.outs[i])
 	if err == nil {
 		fr.mu.Lock()
-		fr.stored[i] = true
+		for _, it := range items {
+			if it.s >= 1 && it.s <= len(fr.tenants) && fr.tenants[it.s-1] == it.tenant {
+				fr.stored[i][it.s] = true // stored under the series' own tenant
+			}
+		}
 		fr.mu.Unlock()
 	}
 	return err
 }
+
+// ---- the receiver's own storage (RouterIngestor with the receiver as one of the replicas) ----
+
+// localStore is the TenantStorage behind the handler's Writer. Tenant names carry the run id
+// ("t<run>" / "t<run>x<k>"), so a straggling local write of an earlier run is recognised.
+type localStore struct{ cur atomic.Pointer[fanoutRun] }
+
+func (ls *localStore) TenantAppendable(tenant string) (receive.Appendable, error) {
+	return &localAppendable{ls: ls, tenant: tenant}, nil
+}
+
+type localAppendable struct {
+	ls     *localStore
+	tenant string
+}
+
+func runOfTenant(tenant string) string {
+	t := strings.TrimPrefix(tenant, "t")
+	if k := strings.IndexByte(t, 'x'); k >= 0 {
+		t = t[:k]
+	}
+	return t
+}
+
+func (la *localAppendable) Appender(ctx context.Context) (storage.Appender, error) {
+	fr := la.ls.cur.Load()
+	if fr == nil || runOfTenant(la.tenant) != fr.runID {
+		return &localAppender{}, nil // straggler: swallow
+	}
+	fr.mu.Lock()
+	i := fr.localIdx
+	if i < 0 {
+		fr.placement = "a write went to the local storage although the case has no local replica"
+		fr.mu.Unlock()
+		return &localAppender{}, nil
+	}
+	fr.arrived[i] = true
+	ch := fr.rel[i]
+	fr.mu.Unlock()
+	select {
+	case <-ch: // a write with several tenants asks once per tenant: only the first call waits
+	case <-ctx.Done():
+		return nil, ctx.Err()
+	}
+	switch fr.outs[i] {
+	case "notready":
+		return nil, tsdb.ErrNotReady
+	case "ok":
+		return &localAppender{fr: fr, er: i, tenant: la.tenant}, nil
+	case "conflict":
+		return &localAppender{fr: fr, er: i, tenant: la.tenant, conflict: true}, nil
+	default:
+		return nil, fmt.Errorf("verif: local storage failure")
+	}
+}
+
+// localAppender records what the Writer appends; with conflict every sample is out of order.
+type localAppender struct {
+	storage.Appender // nil: the Writer only calls the methods below
+	fr               *fanoutRun
+	er               int
+	tenant           string
+	conflict         bool
+	pending          []int
+}
+
+func (a *localAppender) GetRef(l labels.Labels, _ uint64) (storage.SeriesRef, labels.Labels) {
+	return 0, l
+}
+
+func (a *localAppender) Append(_ storage.SeriesRef, l labels.Labels, _ int64, _ float64) (storage.SeriesRef, error) {
+	if a.conflict {
+		return 0, storage.ErrOutOfOrderSample
+	}
+	s, _ := strconv.Atoi(l.Get("vser"))
+	a.pending = append(a.pending, s)
+	return 1, nil
+}
+
+func (a *localAppender) Commit() error {
+	if a.fr == nil {
+		return nil
+	}
+	a.fr.mu.Lock()
+	defer a.fr.mu.Unlock()
+	for _, s := range a.pending {
+		ok := false
+		for _, x := range a.fr.ers[a.er].series {
+			if x == s {
+				ok = true
+			}
+		}
+		if !ok {
+			a.fr.placement = fmt.Sprintf("local write carries series %d, expected %v", s, a.fr.ers[a.er].series)
+		}
+		if s >= 1 && s <= len(a.fr.tenants) && a.fr.tenants[s-1] == a.tenant {
+			a.fr.stored[a.er][s] = true
+		}
+	}
+	return nil
+}
+
+func (a *localAppender) Rollback() error { return nil }
 
 func sortInts(s []int) {
 	for i := 1; i < len(s); i++ {
@@ -149,10 +272,11 @@ type fanoutDriver struct {
 	envs     map[string]*env
 	runNo    int
 	deadAddr string
+	store    *localStore
 }
 
 func newFanoutDriver(t *testing.T) *fanoutDriver {
-	return &fanoutDriver{t: t, envs: map[string]*env{}}
+	return &fanoutDriver{t: t, envs: map[string]*env{}, store: &localStore{}}
 }
 
 func (d *fanoutDriver) close() {
@@ -165,8 +289,8 @@ func (d *fanoutDriver) close() {
 	}
 }
 
-func (d *fanoutDriver) env(rf, nn int, mode string, backoff bool) *env {
-	k := fmt.Sprintf("%d/%d/%s/%v", rf, nn, mode, backoff)
+func (d *fanoutDriver) env(rf, nn int, mode string, backoff bool, local int, split bool) *env {
+	k := fmt.Sprintf("%d/%d/%s/%v/%d/%v", rf, nn, mode, backoff, local, split)
 	if e, ok := d.envs[k]; ok {
 		return e
 	}
@@ -174,7 +298,10 @@ func (d *fanoutDriver) env(rf, nn int, mode string, backoff bool) *env {
 	if mode == "routeringestor" {
 		m = receive.RouterIngestor
 	}
-	o := envOpts{nodes: nn, rf: rf, mode: m, forwardTimeout: 30 * time.Second}
+	o := envOpts{nodes: nn, rf: rf, mode: m, forwardTimeout: 30 * time.Second, localNode: local + 1, storage: d.store}
+	if split {
+		o.splitLabel = "vtenant"
+	}
 	if backoff {
 		o.workers = 64           // room for every primer write of every replica on one node
 		o.maxBackoff = time.Hour // peers that failed stay refused for min(100ms * 2^failures, 1h), jittered
@@ -311,7 +438,24 @@ func (d *fanoutDriver) runOnce(c vt.Case, ers []erSpec, outs []string, order []i
 			d.t.Fatalf("fan-out driver: case gives node %d both a local failure and another outcome: %v", er.node, c)
 		}
 	}
-	e := d.env(rf, nn, vt.Str(c["mode"]), len(down) > 0)
+	// local replica: node `local` is the receiver itself; tenants[s-1] = k: 0 = the request's tenant
+	// (header), k >= 1 = tenant split off by the series label vtenant
+	local := -1
+	if v, ok := c["local"]; ok {
+		local = vt.Int(v)
+	}
+	tenantIdx := make([]int, nser)
+	split := false
+	if v, ok := c["tenants"]; ok {
+		for i, k := range vt.Ints(v) {
+			tenantIdx[i] = k
+			split = split || k > 0
+		}
+	}
+	if local >= 0 && (down[local] || undial[local]) {
+		d.t.Fatalf("fan-out driver: the local node cannot be down: %v", c)
+	}
+	e := d.env(rf, nn, vt.Str(c["mode"]), len(down) > 0, local, split)
 	dead := vt.Bool(c["dead"]) // back-off nodes are really dead: nothing listens at their address
 	eps := e.eps
 	if len(undial) > 0 || (dead && len(down) > 0) {
@@ -331,11 +475,27 @@ func (d *fanoutDriver) runOnce(c vt.Case, ers []erSpec, outs []string, order []i
 	e.h.Hashring(posHashring{eps: eps}) // keeps connections of unchanged nodes, forgets peer back-off state
 	d.runNo++
 	fr := &fanoutRun{runID: strconv.Itoa(d.runNo), ers: ers, outs: outs, idx: map[[2]int]int{},
-		rel: make([]chan struct{}, len(ers)), stored: make([]bool, len(ers)), arrived: make([]bool, len(ers))}
+		rel: make([]chan struct{}, len(ers)), stored: make([]map[int]bool, len(ers)), arrived: make([]bool, len(ers)),
+		tenants: make([]string, nser), localIdx: -1}
+	baseTenant := "t" + fr.runID
+	for s := range fr.tenants {
+		fr.tenants[s] = baseTenant
+		if tenantIdx[s] > 0 {
+			fr.tenants[s] = baseTenant + "x" + strconv.Itoa(tenantIdx[s])
+		}
+	}
 	for i, er := range ers {
 		fr.idx[[2]int{er.node, er.replica}] = i
 		fr.rel[i] = make(chan struct{})
+		fr.stored[i] = map[int]bool{}
+		if er.node == local {
+			if fr.localIdx >= 0 {
+				d.t.Fatalf("fan-out driver: two writes go to the local node: %v", c)
+			}
+			fr.localIdx = i
+		}
 	}
+	d.store.cur.Store(fr)
 	if len(down) > 0 {
 		d.prime(e, down, fr.runID, nn) // earlier requests fail on these nodes => back-off for this one
 	}
@@ -346,10 +506,14 @@ func (d *fanoutDriver) runOnce(c vt.Case, ers []erSpec, outs []string, order []i
 	}
 	tss := make([]prompb.TimeSeries, 0, nser)
 	for s := 1; s <= nser; s++ {
-		tss = append(tss, series(map[string]string{"__name__": "verif_fanout", "vser": strconv.Itoa(s),
-			"vstart": strconv.Itoa(starts[s-1]), "vrun": fr.runID}, 1700000000000+int64(d.runNo), float64(s)))
+		lb := map[string]string{"__name__": "verif_fanout", "vser": strconv.Itoa(s),
+			"vstart": strconv.Itoa(starts[s-1]), "vrun": fr.runID}
+		if tenantIdx[s-1] > 0 {
+			lb["vtenant"] = fr.tenants[s-1]
+		}
+		tss = append(tss, series(lb, 1700000000000+int64(d.runNo), float64(s)))
 	}
-	hdr := map[string]string{"Content-Type": "application/x-protobuf", "Content-Encoding": "snappy"}
+	hdr := map[string]string{"Content-Type": "application/x-protobuf", "Content-Encoding": "snappy", "THANOS-TENANT": baseTenant}
 	if rep > 0 {
 		hdr[receive.DefaultReplicaHeader] = strconv.Itoa(rep)
 	}
@@ -439,11 +603,9 @@ loop:
 	// what the peers had stored when fanoutForward decided
 	fr.mu.Lock()
 	storedAt := make([]int, nser)
-	for i, er := range ers {
-		if fr.stored[i] {
-			for _, s := range er.series {
-				storedAt[s-1]++
-			}
+	for i := range ers {
+		for s := range fr.stored[i] {
+			storedAt[s-1]++
 		}
 	}
 	placement := fr.placement
@@ -591,6 +753,34 @@ func randomFanoutCase(rnd *rand.Rand, outcomes []string, maxRF, norders int, loc
 		}
 		dead = rnd.Intn(4) == 0
 	}
+	// the receiver itself as one of the replicas: a node that gets exactly one write and is not down
+	local := -1
+	if rnd.Intn(3) == 0 {
+		perNode := map[int]int{}
+		for _, er := range ers {
+			perNode[er["node"].(int)]++
+		}
+		var cand []int
+		for i, er := range ers {
+			if perNode[er["node"].(int)] == 1 && !isLocal(outs[i]) {
+				cand = append(cand, i)
+			}
+		}
+		if len(cand) > 0 {
+			i := cand[rnd.Intn(len(cand))]
+			local = ers[i]["node"].(int)
+			if outs[i] == "unavailable" || rnd.Intn(4) == 0 {
+				outs[i] = []string{"notready", "conflict", "other", "ok"}[rnd.Intn(4)]
+			}
+		}
+	}
+	// tenant split: some series carry the split label and go to their own tenant
+	tenants := make([]int, nser)
+	if rnd.Intn(3) == 0 {
+		for i := range tenants {
+			tenants[i] = rnd.Intn(3)
+		}
+	}
 	orders := make([][]int, 0, norders)
 	for k := 0; k < norders; k++ {
 		p := rnd.Perm(len(ers))
@@ -603,7 +793,8 @@ func randomFanoutCase(rnd *rand.Rand, outcomes []string, maxRF, norders int, loc
 	if rep > 0 {
 		mode = "routeringestor"
 	}
-	return vt.Case{"rf": rf, "nn": nn, "starts": starts, "rep": rep, "ers": ers, "outs": outs, "orders": orders, "mode": mode, "dead": dead}
+	return vt.Case{"rf": rf, "nn": nn, "starts": starts, "rep": rep, "ers": ers, "outs": outs, "orders": orders, "mode": mode, "dead": dead,
+		"local": local, "tenants": tenants}
 }
 
 // dialFailureCases: one series, rf 1..maxRF, every multiset over ok/conflict/unavailable/nodial with at
